@@ -1028,6 +1028,16 @@ func (g *Gen) genC19(n int) error {
 			g.newBuilt(st, bt)
 			g.emit("mergeengfaults %s segs=%s,%s drops=nil|nil", g.fresh("f"), st, segs[1])
 			g.emit("close %s", st)
+			if g.ndocs[segs[0]] < 50 {
+				// an input ALL of whose documents are deleted (its indexes are not even read) in front of,
+				// and behind, one with live vectors
+				all := make([]int, g.ndocs[segs[1]])
+				for k := range all {
+					all[k] = k
+				}
+				g.emit("mergeengfaults %s segs=%s,%s drops=%s|nil", g.fresh("f"), segs[1], segs[0], intList(all))
+				g.emit("mergeengfaults %s segs=%s,%s drops=nil|%s", g.fresh("f"), segs[0], segs[1], intList(all))
+			}
 			g.st("fault.shapes")
 		}
 		for _, s := range segs {
